@@ -16,6 +16,7 @@ import (
 	"math/rand/v2"
 	"sort"
 	"strings"
+	"sync"
 	"testing"
 	"testing/synctest"
 	"time"
@@ -630,6 +631,92 @@ func vfC12EndToEnd(t *testing.T, res *vfResult, idx int) {
 	synctest.Wait()
 }
 
+// vfC12ReversedBursts: every burst of datagrams an endpoint emits at one instant reaches the peer in reverse order
+// (a microsecond later), provided the burst consists of unprotected handshake records only; nothing is lost or
+// duplicated. "Whatever the arrival order": the receiver has every byte, so it reconstructs every message and the
+// handshake goes on at once - if it only completes after a retransmission timer, a complete message was left lying
+// in the reassembly buffer.
+func vfC12ReversedBursts(t *testing.T, res *vfResult, idx int) {
+	vs := vfC02Variants()
+	v := vs[idx%len(vs)]
+	if v.Resumed {
+		v = vs[0]
+	}
+	v.Cfg.MTU = []int{32, 60, 100, 200}[(idx/len(vs))%4]
+	if v.Cfg.Is13() && v.Cfg.MTU < 100 {
+		v.Cfg.MTU = 100
+	}
+	n := vfNewNet()
+	var mu sync.Mutex
+	held := map[string][]*vfWire{}
+	reversed := 0
+	n.onSend = func(n *vfNet, w *vfWire) {
+		mu.Lock()
+		first := len(held[w.From]) == 0
+		held[w.From] = append(held[w.From], w)
+		mu.Unlock()
+		if !first {
+			return
+		}
+		from := w.From
+		time.AfterFunc(time.Microsecond, func() { // fires once the sender has nothing more to emit at this instant
+			mu.Lock()
+			burst := held[from]
+			held[from] = nil
+			plain := len(burst) > 1
+			for _, b := range burst {
+				if !vfPlainHandshakeOnly(b.Data) {
+					plain = false
+				}
+			}
+			if plain {
+				reversed++
+				for i, j := 0, len(burst)-1; i < j; i, j = i+1, j-1 {
+					burst[i], burst[j] = burst[j], burst[i]
+				}
+			}
+			mu.Unlock()
+			for _, b := range burst {
+				n.Deliver(b.Dst, b.Data, vfAddrOf(b.From))
+			}
+		})
+	}
+	co, so := v.Cfg.Options(nil, nil)
+	p, err := vfNewPair(n, co, so)
+	res.Eval(1)
+	if err != nil {
+		res.Count("e2e_config_rejected", 1)
+
+		return
+	}
+	first := time.Second
+	for _, iv := range []time.Duration{v.Cfg.IvC, v.Cfg.IvS} {
+		if iv > 0 && iv < first {
+			first = iv
+		}
+	}
+	cAt, sAt := p.HandshakeTimed(2 * time.Minute)
+	mu.Lock()
+	rv := reversed
+	mu.Unlock()
+	id := fmt.Sprintf("reversed-bursts/%s/mtu%d", v.Name, v.Cfg.MTU)
+	switch {
+	case p.C.Err != nil || p.S.Err != nil:
+		res.Violate(fmt.Sprintf("C12:e2e-reversed:%s:mtu%d:client=%s,server=%s", v.Name, v.Cfg.MTU, vfErrNorm(p.C.Err), vfErrNorm(p.S.Err)),
+			fmt.Sprintf("%s: handshake with every unprotected burst delivered in reverse order failed: client=%v server=%v", id, p.C.Err, p.S.Err), map[string]any{"reversed": idx})
+	case rv > 0 && (cAt >= first || sAt >= first):
+		res.Violate("C12:complete-message-not-surfaced-until-retransmission:"+vfVerClass(v),
+			fmt.Sprintf("%s: %d bursts of unprotected handshake datagrams arrived in reverse order, nothing was lost, yet the handshake completed only at client=%v server=%v, after the first retransmission timer (%v)",
+				id, rv, cAt, sAt, first), map[string]any{"reversed": idx})
+	default:
+		res.Count("reversed_burst_handshakes", 1)
+		res.Count("bursts_reversed", int64(rv))
+		res.NonTrivial(id)
+	}
+	p.Close()
+	synctest.Wait()
+}
+
 func TestVF_C12(t *testing.T) {
 	vfGetPKI()
 	res := vfNewResult("C12", "receiver: FragmentBuffer driven like conn.go (Push record, Pop until empty) against an independent "+
@@ -643,6 +730,9 @@ func TestVF_C12(t *testing.T) {
 	vfC12Sender(res)
 	ne := vfPick(60, 1200)
 	vfBubbles(t, ne, func(t *testing.T, i int) { vfC12EndToEnd(t, res, i) })
+	nr := 4 * len(vfC02Variants())
+	vfBubbles(t, nr, func(t *testing.T, i int) { vfC12ReversedBursts(t, res, i) })
+	res.Floor("bursts_reversed", int64(nr))
 	res.Exhaustive = false
 	res.Floor("e2e_completed", int64(ne*8/10))
 	res.Finish(t)
